@@ -25,6 +25,7 @@ def dispatch (m : String) (j : Json) : Except String Json :=
   | "batches" => batchesJ j
   | "tree" => tree j
   | "check" => checkJ j
+  | "installs" => installsJ j
   | "crash" => crash j
   | "select" => selectJ j
   | "path" => pathJ j
